@@ -66,7 +66,7 @@ CHECKS = {
          "Scheduling points only at lock operations and thread start/end (sufficient given the race monitor covers unsynchronised accesses); memory-model effects below that are covered only by the supplementary free-running -race pass (both tiers); the access probes come from a go/types pass over packages bt, bscript and bscript/interpreter (every field reached through a pointer, every package-level variable, locals aliasing map/slice fields) - accesses made through closures, reflection (encoding/json) or other packages are not probed.", "DESIGN.md §4 C18"),
 }
 
-WATCHED = {"C02", "C03", "C04", "C08", "C10", "C11", "C12", "C16"}
+WATCHED = {"C01", "C02", "C03", "C04", "C08", "C10", "C11", "C12", "C16"}
 
 PENDING_REASON = "check not built yet in this round (planned, see DESIGN.md §4); not claimed until its exhaustive check exists and is quiet on the unchanged tree"
 
@@ -95,7 +95,7 @@ def main():
         "setup_cmd": "./setup.sh",
         "hooks": {
             "guard": "verif",
-            "enable": "no hook is committed to /repo: the scheduling points and access probes used by C18 and by the write-monitor stage of C02, C03, C04, C08, C10, C11, C12 and C16 are generated from the current sources of packages bt, bscript and bscript/interpreter at check time and injected with `go build -tags verif -overlay .work/overlay.json`",
+            "enable": "no hook is committed to /repo: the scheduling points and access probes used by C18 and by the write-monitor stage of C01, C02, C03, C04, C08, C10, C11, C12 and C16 are generated from the current sources of packages bt, bscript and bscript/interpreter at check time and injected with `go build -tags verif -overlay .work/overlay.json`",
             "baseline_off_cmd": "cd /repo && go test -mod=mod -json -vet=off -count=1 -timeout 25m ./...",
             "source_commits": [],
             "add_only": True,
